@@ -1,5 +1,6 @@
 import BnpVerif.Model.C17
 import BnpVerif.Props.C18
+import BnpVerif.Props.C01
 import BnpVerif.Gen.C17
 /-! C17 property theorems. Helper lemmas first; the property theorems are the ones listed in
 `Audit/C17.lean`. -/
@@ -982,6 +983,273 @@ theorem fai_file (rs : List Rec) (h : ∀ r ∈ rs, WFRec r)
   apply List.map_congr_left
   intro row hr
   rw [firstWord_good row.name (hnames row hr)]
+
+
+
+/-! ### the chunks the reader delivers are whole records -/
+
+/-- no newline directly followed by `'>'` -/
+def okBreak : Bytes → Bool
+  | a :: b :: t => !(a == 10 && b == 62) && okBreak (b :: t)
+  | _ => true
+
+theorem ok_split (X Y : Bytes) : okBreak (X ++ 10 :: 62 :: Y) = false := by
+  induction X with
+  | nil => simp [okBreak]
+  | cons x xs ih =>
+    cases hx : xs ++ 10 :: 62 :: Y with
+    | nil => simp at hx
+    | cons y ys =>
+      rw [List.cons_append, hx, okBreak, ← hx, ih]; simp
+
+theorem ok_append (P Q : Bytes) (hP : okBreak P = true) (hQ : okBreak Q = true)
+    (h : ¬ (P.getLast? = some 10 ∧ Q.head? = some 62)) : okBreak (P ++ Q) = true := by
+  induction P with
+  | nil => simpa using hQ
+  | cons x xs ih =>
+    cases xs with
+    | nil =>
+      cases Q with
+      | nil => simp [okBreak]
+      | cons q qs =>
+        simp only [List.cons_append, List.nil_append, okBreak, hQ, Bool.and_true, Bool.not_eq_true']
+        simp only [List.getLast?_singleton, List.head?_cons, Option.some.injEq] at h
+        apply Bool.eq_false_iff.mpr
+        intro hc
+        simp at hc
+        exact h hc
+    | cons y ys =>
+      simp only [List.cons_append, okBreak, Bool.and_eq_true] at hP ⊢
+      refine ⟨hP.1, ?_⟩
+      have := ih hP.2 (by simpa [List.getLast?_cons_cons] using h)
+      simpa using this
+
+theorem ok_no_nl (l : Bytes) (h : 10 ∉ l) : okBreak l = true := by
+  induction l with
+  | nil => rfl
+  | cons x xs ih =>
+    cases xs with
+    | nil => rfl
+    | cons y ys =>
+      have hx : x ≠ 10 := fun hc => h (by simp [hc])
+      simp only [okBreak, Bool.and_eq_true]
+      refine ⟨by simp [hx], ih (fun hm => h (by simp [hm]))⟩
+
+theorem getLast_no (l : Bytes) (b : Nat) (h : b ∉ l) : l.getLast? ≠ some b := by
+  intro hc
+  exact h (List.mem_of_getLast? hc)
+
+theorem wrap_ok (W : Nat) (hW : 0 < W) (n : Nat) : ∀ seq : Bytes, seq.length ≤ n → 10 ∉ seq → 62 ∉ seq →
+    okBreak (wrapBytes W seq) = true ∧ (wrapBytes W seq).head? ≠ some 62 ∧
+    (seq ≠ [] → (wrapBytes W seq).getLast? = some 10) := by
+  induction n with
+  | zero =>
+    intro seq hl _ _
+    have : seq = [] := List.eq_nil_of_length_eq_zero (by omega)
+    subst this; simp [wrap_nil, okBreak]
+  | succ m ih =>
+    intro seq hl h10 h62
+    by_cases hs : seq = []
+    · subst hs; simp [wrap_nil, okBreak]
+    · have hL : 0 < seq.length := by cases seq with | nil => exact absurd rfl hs | cons _ _ => simp
+      obtain ⟨i1, i2, i3⟩ := ih (seq.drop W) (by rw [List.length_drop]; omega) (fun hm => h10 (List.mem_of_mem_drop hm))
+        (fun hm => h62 (List.mem_of_mem_drop hm))
+      rw [wrap_cons W hW seq hs]
+      have ht10 : 10 ∉ seq.take W := fun hm => h10 (List.mem_of_mem_take hm)
+      have ht62 : 62 ∉ seq.take W := fun hm => h62 (List.mem_of_mem_take hm)
+      have hne : seq.take W ≠ [] := by
+        intro hc; have := congrArg List.length hc; simp only [List.length_take, List.length_nil] at this; omega
+      refine ⟨?_, ?_, ?_⟩
+      · apply ok_append _ _ (ok_no_nl _ ht10)
+        · cases hw : wrapBytes W (seq.drop W) with
+          | nil => rfl
+          | cons y ys =>
+            rw [okBreak, ← hw, i1]
+            have : y ≠ 62 := by intro hc; rw [hw, hc] at i2; simp at i2
+            simp [this]
+        · intro hc; exact getLast_no _ 10 ht10 hc.1
+      · cases htk : seq.take W with
+        | nil => exact absurd htk hne
+        | cons c cs =>
+          simp only [List.cons_append, List.head?_cons, ne_eq, Option.some.injEq]
+          intro hc; exact ht62 (by rw [htk, hc]; simp)
+      · intro _
+        by_cases hd : seq.drop W = []
+        · rw [hd, wrap_nil]; simp
+        · have := i3 hd
+          rw [List.getLast?_append, List.getLast?_cons]
+          cases hw : wrapBytes W (seq.drop W) with
+          | nil => rw [hw] at this; simp at this
+          | cons y ys => rw [hw] at this; simp [this]
+
+theorem rec_ok (r : Rec) (h : WFRec r) :
+    okBreak (recBytes r) = true ∧ (recBytes r).head? = some 62 ∧ (recBytes r).getLast? = some 10 := by
+  obtain ⟨w1, w2, w3⟩ := wrap_ok r.width h.width_pos r.seq.length r.seq (Nat.le_refl _) h.seq_nl h.seq_marker
+  have hw3 := w3 h.seq_ne
+  unfold recBytes
+  refine ⟨?_, rfl, ?_⟩
+  · have e : 62 :: r.header ++ 10 :: wrapBytes r.width r.seq = (62 :: r.header) ++ (10 :: wrapBytes r.width r.seq) := rfl
+    rw [e]
+    apply ok_append
+    · apply ok_no_nl
+      intro hm
+      simp only [List.mem_cons] at hm
+      rcases hm with hm | hm
+      · omega
+      · exact h.header_nl hm
+    · cases hw : wrapBytes r.width r.seq with
+      | nil => rfl
+      | cons y ys =>
+        rw [okBreak, ← hw, w1]
+        have : y ≠ 62 := by intro hc; rw [hw, hc] at w2; simp at w2
+        simp [this]
+    · intro hc
+      have : (62 :: r.header).getLast? ≠ some 10 := by
+        apply getLast_no
+        intro hm
+        simp only [List.mem_cons] at hm
+        rcases hm with hm | hm
+        · omega
+        · exact h.header_nl hm
+      exact this hc.1
+  · have e : 62 :: r.header ++ 10 :: wrapBytes r.width r.seq = (62 :: r.header ++ [10]) ++ wrapBytes r.width r.seq := by simp
+    rw [e, List.getLast?_append, hw3]; rfl
+
+theorem file_head (rs : List Rec) : fileOf rs = [] ∨ (fileOf rs).head? = some 62 := by
+  cases rs with
+  | nil => left; rfl
+  | cons r rs => right; simp [fileOf, recBytes]
+
+theorem file_last (rs : List Rec) (h : ∀ r ∈ rs, WFRec r) : fileOf rs = [] ∨ (fileOf rs).getLast? = some 10 := by
+  induction rs with
+  | nil => left; rfl
+  | cons r rs ih =>
+    right
+    have e : fileOf (r :: rs) = recBytes r ++ fileOf rs := by simp [fileOf]
+    rw [e, List.getLast?_append]
+    rcases ih (fun x hx => h x (by simp [hx])) with h0 | h1
+    · rw [h0]; simp [(rec_ok r (h r (by simp))).2.2]
+    · rw [h1]; rfl
+
+/-- a cut of a well-formed file after a newline and before a `'>'` is a record boundary -/
+theorem cut_aligned (rs : List Rec) (h : ∀ r ∈ rs, WFRec r) (A B : Bytes) (hf : fileOf rs = A ++ B)
+    (hA : A = [] ∨ A.getLast? = some 10) (hB : B = [] ∨ B.head? = some 62) :
+    ∃ rs1 rs2, rs = rs1 ++ rs2 ∧ A = fileOf rs1 ∧ B = fileOf rs2 := by
+  induction rs generalizing A with
+  | nil =>
+    have : A = [] ∧ B = [] := by simpa [fileOf] using hf.symm
+    exact ⟨[], [], rfl, by simp [this.1, fileOf], by simp [this.2, fileOf]⟩
+  | cons r rs ih =>
+    have hr := h r (by simp)
+    obtain ⟨o1, o2, o3⟩ := rec_ok r hr
+    have e : fileOf (r :: rs) = recBytes r ++ fileOf rs := by simp [fileOf]
+    rw [e] at hf
+    rcases List.append_eq_append_iff.mp hf with ⟨C, hAC, hBC⟩ | ⟨C, hRC, hBC⟩
+    · -- A = recBytes r ++ C, fileOf rs = C ++ B
+      have hC : C = [] ∨ C.getLast? = some 10 := by
+        by_cases hc : C = []
+        · left; exact hc
+        · right
+          rcases hA with hA | hA
+          · rw [hAC] at hA; simp at hA; exact absurd hA.2 hc
+          · rw [hAC, List.getLast?_append] at hA
+            cases hl : C.getLast? with
+            | none => exact absurd (List.getLast?_eq_none_iff.mp hl) hc
+            | some x => rw [hl] at hA; simpa using hA
+      obtain ⟨rs1, rs2, e1, e2, e3⟩ := ih (fun x hx => h x (by simp [hx])) C hBC hC
+      exact ⟨r :: rs1, rs2, by rw [e1]; rfl, by rw [hAC, e2]; simp [fileOf], e3⟩
+    · -- recBytes r = A ++ C, B = C ++ fileOf rs
+      by_cases hA0 : A = []
+      · subst hA0
+        exact ⟨[], r :: rs, rfl, rfl, by simp only [List.nil_append] at hRC; rw [hBC, ← hRC, e]⟩
+      · by_cases hC0 : C = []
+        · subst hC0
+          simp only [List.append_nil, List.nil_append] at hRC hBC
+          exact ⟨[r], rs, rfl, by rw [← hRC]; simp [fileOf], hBC⟩
+        · -- a cut strictly inside the record: impossible
+          exfalso
+          have hA1 : A.getLast? = some 10 := by rcases hA with hA | hA; exact absurd hA hA0; exact hA
+          have hB1 : C.head? = some 62 := by
+            rcases hB with hB | hB
+            · rw [hBC] at hB; simp at hB; exact absurd hB.1 hC0
+            · cases C with
+              | nil => exact absurd rfl hC0
+              | cons c cs => rw [hBC] at hB; simpa using hB
+          obtain ⟨A0, hA0'⟩ : ∃ A0, A = A0 ++ [10] := by
+            refine ⟨A.dropLast, ?_⟩
+            have h1 := List.dropLast_concat_getLast hA0
+            have h2 : A.getLast hA0 = 10 := by
+              rw [List.getLast?_eq_some_getLast hA0] at hA1
+              exact Option.some.inj hA1
+            rw [h2] at h1
+            exact h1.symm
+          obtain ⟨C0, hC0'⟩ : ∃ C0, C = 62 :: C0 := by
+            cases C with
+            | nil => exact absurd rfl hC0
+            | cons c cs => simp at hB1; exact ⟨cs, by rw [hB1]⟩
+          rw [hA0', hC0', List.append_assoc] at hRC
+          have := ok_split A0 C0
+          simp only [List.singleton_append] at hRC
+          rw [← hRC, o1] at this
+          exact Bool.noConfusion this
+
+/-- chunks that start with `'>'`, end with a newline and concatenate to a well-formed file are the
+files of consecutive groups of its records -/
+theorem chunks_groups (cs : List Bytes) (hc : ∀ c ∈ cs, c ≠ [] ∧ c.getLast? = some 10 ∧ c.head? = some 62) :
+    ∀ rs : List Rec, (∀ r ∈ rs, WFRec r) → cs.flatten = fileOf rs →
+      ∃ groups : List (List Rec), groups.flatten = rs ∧ cs = groups.map fileOf := by
+  induction cs with
+  | nil =>
+    intro rs _ hf
+    cases rs with
+    | nil => exact ⟨[], rfl, rfl⟩
+    | cons r rs => simp [fileOf, recBytes] at hf
+  | cons c cs ih =>
+    intro rs h hf
+    obtain ⟨c1, c2, c3⟩ := hc c (by simp)
+    have hB : cs.flatten = [] ∨ cs.flatten.head? = some 62 := by
+      cases cs with
+      | nil => left; rfl
+      | cons d ds =>
+        right
+        obtain ⟨d1, _, d3⟩ := hc d (by simp)
+        cases d with
+        | nil => exact absurd rfl d1
+        | cons x xs => simpa using d3
+    obtain ⟨rs1, rs2, e1, e2, e3⟩ := cut_aligned rs h c cs.flatten (by simpa using hf.symm) (Or.inr c2) hB
+    have h2 : ∀ r ∈ rs2, WFRec r := fun r hr => h r (by rw [e1]; simp [hr])
+    obtain ⟨groups, g1, g2⟩ := ih (fun d hd => hc d (by simp [hd])) rs2 h2 e3
+    exact ⟨rs1 :: groups, by simp [g1, e1], by simp [e2, g2]⟩
+
+/-- **C17.index_reader_chunks**: end to end with the chunked reader — for EVERY chunk size `k ≥ 1`
+and both reader modes, `create_index` applied to the chunks the reader (C01's model of
+`read_chunks` for wrapped FASTA) delivers for a file of well-formed records gives exactly the index
+of the whole file: offsets add up across chunks however the file is chunked -/
+theorem index_reader_chunks (rs : List Rec) (h : ∀ r ∈ rs, WFRec r) (mode : C01.Mode) (k : Nat) (hk : 0 < k) :
+    createIndexChunked (C01.readAll C01.Fmt.fasta true mode (fileOf rs) k) = createIndex (fileOf rs) := by
+  obtain ⟨hflat, hch⟩ := C01.readAll_bytes_fasta mode (fileOf rs) (by
+    rcases file_head rs with h0 | h1
+    · left; exact h0
+    · right; exact h1) k hk
+  have hnorm : C01.norm (fileOf rs) = fileOf rs := by
+    unfold C01.norm
+    rcases file_last rs h with h0 | h1
+    · rw [h0]; rfl
+    · have : (fileOf rs).isEmpty = false := by
+        cases hf : fileOf rs with
+        | nil => rw [hf] at h1; simp at h1
+        | cons _ _ => rfl
+      simp only [this, Bool.false_eq_true, if_false, C01.addNL]
+      have : (fileOf rs).getLast? = some C01.NL := h1
+      simp [this]
+  rw [hnorm] at hflat
+  obtain ⟨groups, g1, g2⟩ := chunks_groups _ (fun c hc => by
+    obtain ⟨a1, a2, a3⟩ := hch c hc
+    exact ⟨a1, a2, a3⟩) rs h hflat
+  rw [g2, ← g1]
+  exact index_chunks groups (by
+    intro g hg r hr
+    exact h r (by rw [← g1]; exact List.mem_flatten.mpr ⟨g, hg, hr⟩))
 
 
 section Traced
